@@ -21,6 +21,7 @@ func checkC11(c *Ctx, r *Report) {
 	c11c(c, r, st)
 	c11d(c, r)
 	c11e(c, r)
+	c11f(c, r)
 }
 
 func c11a(c *Ctx, r *Report) {
@@ -517,6 +518,134 @@ func c11e(c *Ctx, r *Report) {
 	}
 	r.Check(bad == "" && n >= 2, clause, "R4 DECISION-TABLE", f.Name+"/named-token-code", c.pos(loop.Pos()),
 		"in a precedence line an identifier is recorded with code 0 (numbered later) and a character literal with its character code, decided per iteration", bad)
+}
+
+// c11f — parseTokendef (%token lines): the code recorded for a declared NAME is a function of this iteration's
+// own tokens only: 0 (number it automatically) unless the name is directly followed by a number, then that number.
+// A value carried over from an earlier name on the line (a variable declared outside the loop) gives two tokens
+// the same code.
+func c11f(c *Ctx, r *Report) {
+	const clause = "C11.d"
+	f := c.need(r, clause, "Parser", "parser", "parseTokendef")
+	if f == nil {
+		return
+	}
+	info := f.Pkg.TypesInfo
+	key := f.Name + "/declared-token-code"
+	var loop *ast.ForStmt
+	for _, s := range f.Decl.Body.List {
+		if fs, ok := s.(*ast.ForStmt); ok {
+			loop = fs
+		}
+	}
+	if loop == nil {
+		r.Undecided(clause, "R4 DECISION-TABLE", key, c.pos(f.Decl.Pos()), "no token loop")
+		return
+	}
+	pe := newPathEnum(info)
+	paths, err := pe.Enumerate(loop.Body.List)
+	if err != nil {
+		r.Undecided(clause, "R4 DECISION-TABLE", key, c.pos(loop.Pos()), err.Error())
+		return
+	}
+	isIdendityValue := func(e ast.Expr) bool {
+		se, ok := unparen(e).(*ast.SelectorExpr)
+		if !ok || se.Sel.Name != "Value" {
+			return false
+		}
+		t := info.TypeOf(se.X)
+		if t == nil {
+			return false
+		}
+		if n, ok := t.(*types.Named); ok {
+			return n.Obj().Name() == "Idendity"
+		}
+		return false
+	}
+	var carried func(t *Term) string
+	carried = func(t *Term) string {
+		if t == nil {
+			return ""
+		}
+		if t.Op == "leaf" && !strings.Contains(t.Name, ".") && t.Name != "p" {
+			return t.Name
+		}
+		for _, a := range t.Args {
+			if s := carried(a); s != "" {
+				return s
+			}
+		}
+		for _, a := range t.Fields {
+			if s := carried(a); s != "" {
+				return s
+			}
+		}
+		return ""
+	}
+	bad := ""
+	n := 0
+	for _, p := range paths {
+		ident, number, atoiOK := false, false, false
+		for _, cd := range p.Conds {
+			s := cd.Atom.String()
+			if strings.Contains(s, "\"Identifier\"") && cd.Pol {
+				ident = true
+			}
+			if strings.Contains(s, "\"Number\"") && cd.Pol {
+				number = true
+			}
+			if strings.Contains(s, "result1(strconv.Atoi") {
+				isNE := cd.Atom.Op == "cmp" && cd.Atom.Name == "!="
+				atoiOK = (isNE && !cd.Pol) || (!isNE && cd.Pol)
+			}
+		}
+		if !ident {
+			continue
+		}
+		// the last store to <Idendity>.Value on the path, or the literal's field when there is none
+		var val *Term
+		for _, e := range p.Effects {
+			if e.Kind != "store" {
+				continue
+			}
+			if as, ok := e.Node.(*ast.AssignStmt); ok {
+				for _, l := range as.Lhs {
+					if isIdendityValue(l) {
+						val = e.Term
+					}
+				}
+			}
+		}
+		if val == nil {
+			var vals []*Term
+			for _, e := range p.Effects {
+				collectFieldOfComposite(e.Term, "Idendity", "Value", &vals)
+			}
+			if len(vals) > 0 {
+				val = vals[len(vals)-1]
+			}
+		}
+		if val == nil {
+			bad = "a declared name is recorded without a code"
+			continue
+		}
+		n++
+		vs := val.String()
+		switch {
+		case carried(val) != "":
+			bad = "the code recorded for a declared name is taken from `" + carried(val) + "`, a variable that lives across the names of one %token line: a name after an explicitly numbered one inherits its number"
+		case number && atoiOK:
+			if !strings.Contains(vs, "strconv.Atoi(p.current.Value)") {
+				bad = "a name followed by a number is recorded with `" + vs + "`, not that number"
+			}
+		default:
+			if vs != "0" {
+				bad = "a name without a (valid) number is recorded with `" + vs + "` instead of 0"
+			}
+		}
+	}
+	r.Check(bad == "" && n >= 3, clause, "R4 DECISION-TABLE", key, c.pos(loop.Pos()),
+		"in a %token line a name is recorded with the number that directly follows it, else with 0 (numbered automatically); decided per iteration, nothing is carried from one name to the next", bad)
 }
 
 func collectFieldOfComposite(t *Term, typeSuffix, field string, out *[]*Term) {
